@@ -30,6 +30,10 @@ def inputs(tier):
     out = [dict(src='corpus', d=d) for d in corpus.pairs(tier, kinds_a=TITR, kinds_b=ALLK, dists=ds, levels=lv)]
     out += [dict(src='corpus', d=d) for d in corpus.clusters(tier)]
     out += [dict(src='corpus', d=d) for d in corpus.cutouts(tier, radius=10.0, every=(1 if tier == 'thorough' else 4))]
+    # the same monitors under parameter files that move the scalar settings the bounds are read from
+    base = [i for i in out if i['d']['t'] in ('cutout', 'cluster')] + [i for i in out if i['d']['t'] == 'pair'][:: (7 if tier == 'quick' else 3)]
+    for name in CFG_EDITS:
+        out += [dict(i, cfg=name) for i in base[:: (2 if tier == 'quick' else 1)]]
     if tier == 'thorough':
         out += [dict(src='corpus', d=corpus.file_desc(k)) for k in gen.PROTEINS]
     return out
@@ -113,10 +117,34 @@ def monitor(rec, params, confs=None):
     return v, seen
 
 
+CFG_EDITS = {'allowance': {'desolvationAllowance': '0.05'}, 'scaling': {'desolvationSurfaceScalingFactor': '0.0', 'desolvationPrefactor': '-20.0'},
+             'ranges': {'Nmin': '100', 'Nmax': '300', 'coulomb_cutoff1': '3.0', 'coulomb_cutoff2': '12.0'},
+             'hbond': {'sidechain_interaction': '1.2', 'COO_HIS_exception': '2.9', 'CYS_CYS_exception': '4.4'}}
+
+
+def cfg_path(name):
+    import os
+    from . import c02
+    path = os.path.abspath('c16_%s.cfg' % name)
+    if not os.path.exists(path):
+        lines = []
+        for ln in c02.cfg_variants()[(1, 0, 0)].splitlines(True):
+            w = ln.split()
+            if w and w[0] in CFG_EDITS[name]:
+                ln = '%s %s\n' % (w[0], CFG_EDITS[name][w[0]])
+            lines.append(ln)
+        with open(path, 'w') as fh:
+            fh.write(''.join(lines))
+    return path
+
+
 def run_case(case, ctx, acc):
     s = corpus.build(case['d'], ctx.seed)
     text = gen.to_text(s)
-    mol = pk.run(text)
+    opts = ()
+    if case.get('cfg'):
+        opts = ('-p', cfg_path(case['cfg']))
+    mol = pk.run(text, opts)
     rec = pk.record(mol)
     v, seen = monitor(rec, mol.version.parameters)
     nt = any(any(g['dets'][t] for t in g['dets']) for c in rec['conformations'] for g in rec['confs'][c]['groups'])
